@@ -19,12 +19,17 @@ func Chunk[T any](s []T, chunkSize int) [][]T {
 	if chunkSize <= 0 {
 		panic("xslices.Chunk: chunkSize must be positive")
 	}
-	out := make([][]T, (len(s)+chunkSize-1)/chunkSize)
+	// Written so that no intermediate value overflows, however large len(s) and chunkSize are.
+	n := 0
+	if len(s) > 0 {
+		n = (len(s)-1)/chunkSize + 1
+	}
+	out := make([][]T, n)
 	for i := range out {
 		start := i * chunkSize
-		end := (i + 1) * chunkSize
-		if end > len(s) {
-			end = len(s)
+		end := len(s)
+		if len(s)-start > chunkSize {
+			end = start + chunkSize
 		}
 		out[i] = s[start:end]
 	}
